@@ -101,6 +101,12 @@ def run(chk):
                 at = start + cnt
             if not tries:
                 tries = [(0, 1, 1)]
+            k = rnd.random()
+            if k < 0.25 and at < insns:                   # a range reaching the last code unit of the method
+                cnt = rnd.randrange(1, insns - at + 1)
+                tries.append((insns - cnt, cnt, rnd.randrange(1, nh + 1)))
+            elif k < 0.35:                                # one range over the whole method
+                tries = [(0, insns, rnd.randrange(1, nh + 1))]
             cases.append((insns, tries, hs))
         obs = observe(dex, cases)
         for case, ob in zip(cases, obs):
